@@ -28,7 +28,7 @@ func init() {
 	})
 }
 
-var c12Params = []string{"", "features=all", "features=fast+protoc", "features=protoc+fast", "features=protoc", "features=fast", "paths=source_relative", "pool=verifrun/gen/kinds.Child", "Mverif/impa.proto=verifrun/gen/impa"}
+var c12Params = []string{"", "features=all", "features=fast+protoc", "features=protoc+fast", "features=protoc", "features=fast", "paths=source_relative", "pool=verifrun/gen/kinds.Child", "Mverif/impa.proto=verifrun/gen/impa", "module=verifrun/gen", "paths=source_relative,features=fast+protoc"}
 
 func c12Units(ctx *Ctx) []*schema.Unit {
 	units := schema.FixedCorpus()
@@ -180,8 +180,11 @@ func checkC12(ctx *Ctx, c *Case, units []*schema.Unit) error {
 		}
 		base := strings.TrimSuffix(name[strings.LastIndex(name, "/")+1:], ".proto")
 		wantName := gp + "/" + base + ".pulsar.go"
-		if param == "paths=source_relative" {
+		if strings.Contains(param, "paths=source_relative") {
 			wantName = strings.TrimSuffix(name, ".proto") + ".pulsar.go"
+		}
+		if param == "module=verifrun/gen" {
+			wantName = strings.TrimPrefix(wantName, "verifrun/gen/")
 		}
 		if got := res.Resp.File[0].GetName(); got != wantName {
 			return fmt.Errorf("output file is named %q, want %q (param %q)", got, wantName, param)
